@@ -278,6 +278,10 @@ ENTRY_POINTS_C07 = [
     "opfython.core.subgraph.Subgraph.__init__", "opfython.core.subgraph.Subgraph._build",
     "opfython.core.node.Node.__init__", "opfython.core.opf.OPF.get_distances",
     "opfython.math.general.pre_compute_distance",
+    # (added in the continuation session: the remaining fitting / predicting entry points that receive caller arrays; `learn` stays
+    #  outside - it is licensed to exchange rows between its four arrays, C17)
+    "opfython.models.supervised.SupervisedOPF.prune",
+    "opfython.models.unsupervised.UnsupervisedOPF.propagate_labels",
 ]
 
 
